@@ -31,7 +31,10 @@ subject_st = st.one_of(
     st.text("abcdefgh XYZ0123", min_size=1, max_size=12).map(str.strip).filter(bool),
     # RFC 2047 encoded words as mail programs write them - well-formed, with a charset Python has no codec for, cut off
     st.sampled_from(["=?utf-8?q?caf=C3=A9?=", "=?iso-8859-1?b?Y2Fm6Q==?=", "=?iso-8859-8-i?q?abc?=", "=?x-mac-roman?q?r=8Esum=8E?=",
-                     "=?utf-8?b?QUJDR?=", "=?utf-8?q?broken", "Re: =?windows-874?b?4Liq?= tail", "=?utf-8?x?y?=", "=??q?x?="]),
+                     "=?utf-8?b?QUJDR?=", "=?utf-8?q?broken", "Re: =?windows-874?b?4Liq?= tail", "=?utf-8?x?y?=", "=??q?x?=",
+                     # encoded words that stand for control characters (TAB, CR LF + a forged menu line): whoever decodes
+                     # them for display has to clean the result, not the encoded form
+                     "=?utf-8?q?tab=09inside?=", "=?utf-8?b?dHdvDQoxbGluZXMJLwlnb3BoZXIuZXhhbXBsZS5vcmcJNzA=?=", "=?iso-8859-1?q?a=0D=0Ab?=", "=?utf-8?q?nul=00byte?="]),
 )
 
 SCRIPT = "#!/bin/sh\necho \"script output search=[$SEARCHREQUEST] selector=[$SELECTOR]\"\n"
@@ -102,6 +105,10 @@ def dir_items(draw, depth, full, gopher_ok, toplevel, max_items=5, kinds=None, l
             continue
         used.add(name)
         items.append([name, item])
+        if kind == "mbox" and draw(st.integers(0, 3)) == 0 and name + ".lock" not in used:
+            # what a delivery agent that crashed leaves next to a mailbox: a stale dot-lock file (an ordinary document)
+            used.add(name + ".lock")
+            items.append([name + ".lock", {"kind": "txt", "content": draw(st.sampled_from(["", "4711\n"]))}])
     if not items:
         items.append(["readme.txt", {"kind": "txt", "content": "hello\n"}])
     return items
